@@ -73,6 +73,25 @@ def run(ctx, rep):
         rep.ob("C07.capture-aliases", "make_function: the function value carries the filled capture map", "ok" if ok else "violated",
                "", c.span, fn=mf.path)
 
+    # the live frame takes precedence over the closure's own captures, in `load` and in `make_function` alike
+    # (sibling cross-check: a read and a capture of the same name must resolve to the same cell)
+    for path in ("bytecode::instruction::implementations::load", "bytecode::instruction::implementations::make_function"):
+        g = need(F, path)
+        lv = g.calls_to("bytecode::context::Ctx::load_variable")
+        lc = g.calls_to("bytecode::context::Ctx::load_callback_variable")
+        ok = bool(lv) and bool(lc)
+        detail = "lookup calls: load_variable=%d load_callback_variable=%d" % (len(lv), len(lc))
+        if ok:
+            edges = set()
+            for c in lv:
+                sw = rules.find_discr_switch(g, c.target, c.dst["l"])
+                if sw is not None:
+                    edges.add((sw, _cells.variant_edge(g, sw, 0)))
+            ok = bool(edges) and all(rules.edge_dominated(g, c.bb, edges) for c in lc)
+            detail = "the captured set is consulted only when the frame lookup found nothing: %s" % ok
+        rep.ob("C07.lookup-precedence", "%s: a name resolves to the live frame first, then to the closure's captures" % mir.short(path),
+               "ok" if ok else "violated", detail, g.span, fn=g.path, key="C07.lookup-precedence|%s" % mir.short(path))
+
     # lookup helpers hand out the stored cell
     for path, expect in (
         ("bytecode::context::Ctx::load_variable", ["bytecode::stack::Stack::find_name"]),
